@@ -39,6 +39,9 @@ VALUES = ["v", "w", "x1", "", "u v", "a b c", "3", "True"]
 TEXTS = ["hi", "x", "a b", "zz", " ", "3", "u"]
 REGEXES = ["^a", "b", ":", "^p:", "v$", ".", "x|i", "^$", " ", "^u"]
 FAMILIES = ["desc", "child", "next", "prev", "nsib", "psib", "par"]
+# names only the API can produce (html.parser lower-cases and cannot start a tag with `_`): single-underscore names (legal
+# XML names), names that collide with real attributes of Tag, the deprecated `…Tag` spelling, a dunder name
+API_EXTRA_NAMES = ["_id", "_", "_x1", "_rev", "name", "string", "contents", "parent", "attrs", "bigTag", "big", "Tag", "__x"]
 N_TAGFN = 6
 N_STRFN = 6
 _RE = [re.compile(r) for r in REGEXES]
@@ -132,6 +135,7 @@ def build_api(r, kids):
     from bs4 import BeautifulSoup
     from bs4.element import NavigableString, Comment, CData
     soup = BeautifulSoup("", "html.parser")
+    exotic = r.random() < 0.5
 
     def add(parent, ks):
         for k in ks:
@@ -144,6 +148,8 @@ def build_api(r, kids):
                 pfx = r.choice(PREFIXES) if r.random() < 0.35 else None
                 if ":" in name and pfx is not None:
                     name = "y"
+                if exotic and r.random() < 0.3:
+                    name = r.choice(API_EXTRA_NAMES)
                 t = soup.new_tag(name, nsprefix=pfx)
                 for a, v in attrs:
                     if isinstance(v, list) and r.random() < 0.15:
@@ -175,7 +181,7 @@ def edit(r, soup):
             t.insert(r.randint(0, len(t.contents)), x)
         elif kind < 0.75:
             t = r.choice(tags)
-            n = soup.new_tag(r.choice(NAMES[:5]), nsprefix=r.choice([None, None] + PREFIXES))
+            n = soup.new_tag(r.choice(NAMES[:5] + (API_EXTRA_NAMES if r.random() < 0.4 else [])), nsprefix=r.choice([None, None] + PREFIXES))
             if r.random() < 0.5:
                 n["class"] = r.sample(CLASS_TOKENS, r.randint(0, 2))
             if r.random() < 0.4:
@@ -346,7 +352,8 @@ def attr_sat(c, value):
     vals = [None] if value is None else list(value) if isinstance(value, list) else [value]
     if any(crit_sat(c, x) for x in vals):
         return True
-    return len(vals) > 1 and crit_sat(c, " ".join(vals))
+    # a multi-valued attribute also counts as one space-joined string (no values at all: the empty string)
+    return len(vals) != 1 and crit_sat(c, " ".join(vals))
 
 
 class Q:
@@ -406,6 +413,8 @@ def sat(q: Q, snap: Snap, i: int) -> bool:
     no_criteria = q.name == ("n",) and not pairs and q.string == ("n",)
     if no_criteria:
         return snap.is_tag[i]
+    if any(yields_no_rule(c) for c in q.crits()):
+        return False          # a criterion offering no alternative ([] / only nested lists / only None): nothing satisfies it
     has_tag_criteria = q.name != ("n",) or bool(pairs)
     if snap.is_tag[i]:
         if not has_tag_criteria:
@@ -594,8 +603,12 @@ def expected(snap: Snap, start: int, fam: str, form: str, limit, q: Q):
     log = None
     if q.name[0] == "f":
         # a function given as the name criterion is called once per candidate tag, with the Tag
+        # (a query that nothing can satisfy has no candidates)
         cand = ax if consumed_to is None else ax[:ax.index(consumed_to) + 1]
-        log = [("t", q.name[1], i) for i in cand if snap.is_tag[i]]
+        unsat = any(yields_no_rule(c) for c in q.crits())
+        # (an unsatisfiable query has no candidates: the log is then left free — /repo HEAD drops the empty criterion and
+        # calls the function, the proposed matches_nothing patch answers before calling it)
+        log = None if unsat else [("t", q.name[1], i) for i in cand if snap.is_tag[i]]
     return res, log
 
 
@@ -636,7 +649,11 @@ def tables(snap: Snap, q: Q):
     return (";".join(re_t) or "-"), (";".join(ft) or "-"), (";".join(fs) or "-")
 
 
-def model_line(snap, start, fam, form, limit, q, variant="r", tabs=None):
+MODEL_VARIANT = __import__("os").environ.get("C10_MODEL_VARIANT", "r")   # r = /repo HEAD, p = HEAD + fixes/proposed, u = 4.13.0
+
+
+def model_line(snap, start, fam, form, limit, q, variant=None, tabs=None):
+    variant = variant or MODEL_VARIANT
     re_t, ft, fs = tabs or tables(snap, q)
     lim = "none" if limit is None else str(limit)
     f = {"all": "all", "one": "one", "call": "call.1" if fam == "desc" else "call.0"}.get(form, form)
@@ -750,7 +767,7 @@ def css_comparable(snap: Snap):
     """the fragment where both mean the same: lower-case plain names, class list-valued, other attributes plain strings"""
     for i, n in enumerate(snap.nodes):
         if snap.is_tag[i] and i > 0:
-            if not re.match(r"^[a-z:][a-z0-9:]*$", n.name):
+            if not re.match(r"^[A-Za-z_:][A-Za-z0-9_:]*$", n.name):
                 return False
             for k, v in n.attrs.items():
                 if k in ("class", "rel") and not isinstance(v, list):
@@ -858,39 +875,89 @@ def flush_model(ctx: Ctx, drv: Driver, lines, pend):
     pend.clear()
 
 
+GETATTR_EXTRA = ["zz", "_zz", "_", "_id", "_x1", "_rev", "aTag", "bTag", "divTag", "Tag", "xTag", "_idTag", "bigTag", "big",
+                 "__x", "__len__x", "__", "name", "string", "contents", "parent", "attrs", "children", "text", "prefix", "hidden"]
+
+
+def is_real_attribute(el, nm):
+    """normal attribute lookup succeeds, i.e. Python never gets to Tag.__getattr__ (object.__getattribute__ does not
+    fall back to __getattr__)"""
+    try:
+        object.__getattribute__(el, nm)
+        return True
+    except AttributeError:
+        return False
+
+
+def getattr_want(snap, start, nm):
+    """the property: tag.NAME is the search tag.find(NAME) for every NAME that is not a real attribute and does not start
+    with a double underscore (those raise AttributeError); NAMETag is the deprecated BS3 spelling of find(NAME), as its
+    DeprecationWarning documents"""
+    if nm.startswith("__"):
+        return "attrerr"
+    target = nm[:-3] if (len(nm) > 3 and nm.endswith("Tag")) else nm
+    for i in snap.axis("desc", start):
+        if sat(Q(name=("s", target)), snap, i):
+            return i
+    return None
+
+
+def getattr_real(snap, el, nm):
+    with warnings.catch_warnings():
+        warnings.simplefilter("ignore")
+        try:
+            got = getattr(el, nm)
+            return None if got is None else snap.idx.get(id(got), -1)
+        except AttributeError:
+            return "attrerr"
+        except Exception as e:
+            return f"exc:{type(e).__name__}"
+
+
 def getattr_cases(ctx, r, snap, lines, pend):
-    from bs4.element import Tag
+    """tag.NAME for every tag name of the tree and a sample of other names (single-underscore names, names ending in
+    `Tag`, dunder names, names of real attributes), from the root and a few other tags"""
     tags = [i for i, t in enumerate(snap.is_tag) if t]
-    names = sorted({snap.nodes[i].name for i in tags[1:]}) + ["zz", "aTag", "bTag", "divTag", "Tag", "xTag", "__x", "__len__x"]
-    for _ in range(3):
-        start = r.choice(tags)
-        el = snap.nodes[start]
-        nm = r.choice(names)
-        if nm in dir(el) or nm in el.__dict__:
-            continue
-        with warnings.catch_warnings():
-            warnings.simplefilter("ignore")
-            try:
-                got = getattr(el, nm)
-                real = None if got is None else snap.idx.get(id(got), -1)
-            except AttributeError:
-                real = "attrerr"
-        # the property: tag.NAME is the search find(NAME); the deprecated BS3 alias NAMETag is find(NAME) (its warning says so)
-        if nm.startswith("__"):
-            want = "attrerr"
-        else:
-            target = nm[:-3] if (len(nm) > 3 and nm.endswith("Tag")) else nm
-            full = [i for i in snap.axis("desc", start) if sat(Q(name=("s", target)), snap, i)]
-            want = full[0] if full else None
-        desc = {"op": "getattr", "tree": snap.enc, "markup": str(snap.soup), "start": start, "attr": nm}
-        ctx.case((snap.enc, start, "getattr", nm) if isinstance(real, int) else None)
-        ctx.count("form:getattr")
-        bad = real != want
-        if bad:
-            ctx.violation("tag.NAME differs from find(NAME)", case=desc, expected=show_res(want), observed=show_res(real),
-                          stream="oracle-getattr")
-        lines.append(f"c10 find r {snap.enc} {start} desc getattr.{tok(nm)} none n D n - - - -")
-        pend.append((desc, real, nm, bad))
+    names = sorted({snap.nodes[i].name for i in tags[1:]}) + r.sample(GETATTR_EXTRA, 7)
+    starts = [0] + (r.sample(tags[1:], min(3, len(tags) - 1)) if len(tags) > 1 else [])
+    for start in starts:
+        for nm in names:
+            getattr_one(ctx, snap, start, nm, lines, pend)
+
+
+def getattr_one(ctx, snap, start, nm, lines, pend):
+    el = snap.nodes[start]
+    if nm.startswith("__") and nm.endswith("Tag") and len(nm) > 3:
+        return
+    if not nm.isidentifier():
+        return                                     # `x:y` cannot be written tag.x:y; getattr() of it is not the shorthand
+    desc = {"op": "getattr", "tree": snap.enc, "markup": str(snap.soup), "start": start, "attr": nm}
+    if is_real_attribute(el, nm):
+        # a real attribute of the object shadows the shorthand (documented: use find() for such names)
+        ctx.count("getattr:real-attribute")
+        ctx.case(None)
+        try:
+            got = getattr(el, nm)
+            ok = (nm not in el.__dict__) or got is el.__dict__[nm]
+        except Exception:
+            ok = False
+        if not ok:
+            ctx.violation("a real attribute of a Tag is not returned as such", case=desc, expected="the attribute",
+                          observed="something else / exception", stream="oracle-getattr")
+        return
+    real = getattr_real(snap, el, nm)
+    want = getattr_want(snap, start, nm)
+    ctx.case((snap.enc, start, "getattr", nm) if isinstance(real, int) else None)
+    ctx.count("form:getattr")
+    ctx.count("getattr:" + ("dunder" if nm.startswith("__") else "underscore" if nm.startswith("_") else
+                            "Tag-suffix" if (len(nm) > 3 and nm.endswith("Tag")) else "plain")
+              + (":found" if isinstance(real, int) else ""))
+    bad = real != want
+    if bad:
+        ctx.violation("tag.NAME differs from tag.find(NAME)", case=desc, expected=show_res(want), observed=show_res(real),
+                      stream="oracle-getattr")
+    lines.append(f"c10 find r {snap.enc} {start} desc getattr.{tok(nm)} none n D n - - - -")
+    pend.append((desc, real, nm, bad))
 
 
 def flush_getattr(ctx, drv, lines, pend):
@@ -922,12 +989,8 @@ def run_css(ctx, r, snap, lines, pend):
         desc = {"op": "css", "markup": str(snap.soup), "tree": snap.enc, "start": start, "selector": sel}
         bad = got != want
         if bad:
-            kf = None
-            m = re.match(r"^\[([a-z-]+)\]$", sel)
-            if m and any(snap.is_tag[i] and n.attrs.get(m.group(1)) == [] for i, n in enumerate(snap.nodes)):
-                kf = "C10-empty-multivalued-attr"
             ctx.violation("select() disagrees with find_all on a selector both express", case=desc,
-                          expected=show_res(want), observed=show_res(got), stream="css", kf=kf)
+                          expected=show_res(want), observed=show_res(got), stream="css")
         if form is not None:
             lines.append(f"c10 find r {snap.enc} {start} desc {form} none n D n - - - -")
             pend.append((desc, got, bad))
@@ -976,7 +1039,11 @@ def run(ctx: Ctx):
         "ElementFilter.filter never yields an empty NavigableString (`if i:`); the evaluator mirrors this stated quirk",
         "criteria given for the same attribute through attrs and kwargs are pooled (any of them), as SoupStrainer.matches_tag documents",
         "find_parents/find_parent are not given a string argument (they have no such parameter)",
-        "Tag.__getattr__ is exercised only with names that are not real attributes of the object; NAMETag is the documented BS3 alias of find(NAME)",
+        "tag.NAME must be tag.find(NAME) for every NAME that is not a real attribute of the object (normal lookup through "
+        "object.__getattribute__ fails) and does not start with a double underscore (those raise AttributeError); NAMETag is the "
+        "documented BS3 alias of find(NAME); names that are real attributes (name, string, contents, parent, attrs, ...) are "
+        "documented not to search and are only checked to return the attribute; API-built and edited trees contain tags named "
+        "_id, _, _x1, _rev, name, string, contents, parent, attrs, bigTag, big, Tag, __x",
         "CSS: trees inside the comparable fragment (lower-case names, class/rel list-valued without empty/space items); selectors type, "
         ".class, #id, [a], [a=v] (non-class attributes), descendant and child combinators; soupsieve itself is recorded",
         "an ElementFilter object passed as `name` is outside the query grammar; a broken Lean obligation (the model has no data "
@@ -1001,6 +1068,15 @@ def run(ctx: Ctx):
     check_case(ctx, snap, (0, "desc", "all", None, Q(name=("s", "p:b"))), "directed", lines, pend)
     check_case(ctx, snap, (0, "desc", "all", 3, Q(name=("s", "p:b"))), "directed", lines, pend)
     flush_model(ctx, drv, lines, pend)
+    # the attribute shorthand on names starting with a single underscore (legal XML names, e.g. <_id> in database dumps)
+    s = BeautifulSoup("<docs><doc><title>t</title></doc></docs>", "html.parser")
+    s.doc.insert(0, s.new_tag("_id"))
+    s.doc.append(s.new_tag("bigTag"))
+    s.doc.append(s.new_tag("big"))
+    snap = Snap(s)
+    for start in (0, 1, 2):
+        for nm in ("_id", "_missing", "_", "title", "doc", "missing", "bigTag", "big", "__x", "__wrapped__"):
+            getattr_one(ctx, snap, start, nm, glines, gpend)
 
     # 2. generated trees x cases
     ntrees = ctx.n(500, 6000)
@@ -1056,6 +1132,14 @@ def replay(path):
     print("case:", json.dumps({k: c[k] for k in c if k not in ("tree", "line")}, default=str)[:1500])
     print("property demands:", v.get("expected"))
     print("recorded observation:", v.get("observed"))
+    if c.get("op") == "getattr":
+        snap = Snap(build_from_enc(c["tree"]))
+        assert snap.enc == c["tree"], "tree could not be rebuilt"
+        real = getattr_real(snap, snap.nodes[c["start"]], c["attr"])
+        want = getattr_want(snap, c["start"], c["attr"])
+        print(f"re-run on the implementation: tag.{c['attr']} ->", show_res(real))
+        print(f"property demands (tag.find({c['attr']!r}) / AttributeError for dunder names):", show_res(want))
+        return 0 if real == want else 1
     if c.get("op") != "find" or "q" not in c:
         print("(no automatic re-run for this kind of case; see the fields above)")
         return 1
